@@ -98,7 +98,7 @@ func gaugeGen(rnd *rand.Rand) func(int) int {
 }
 
 // pipelineCases yields the cases of C37 (counters only) / C38 (counters and gauges).
-func pipelineCases(t *testing.T, rnd *rand.Rand, gauges bool, yield func(vt.Case)) {
+func pipelineCases(t *testing.T, rnd *rand.Rand, gauges, hist bool, yield func(vt.Case)) {
 	for _, c := range vt.TLCCases(t) {
 		vals := vt.Ints(c["vs"])
 		scale := 1 + rnd.Intn(300)
@@ -114,7 +114,7 @@ func pipelineCases(t *testing.T, rnd *rand.Rand, gauges bool, yield func(vt.Case
 			}
 		}
 		yield(vt.Case{"mode": "loop", "base": bases[rnd.Intn(len(bases))], "nc1": vt.Int(c["nc1"]), "nc2": vt.Int(c["nc2"]),
-			"series": []any{map[string]any{"ts": ts, "vs": vals, "ks": c["ks"]}}, "seek": seek})
+			"series": []any{map[string]any{"kind": "float", "ts": ts, "vs": vals, "ks": c["ks"]}}, "seek": seek})
 	}
 	// many input chunks: every (n, numChunks) pair of DownsampleBatchingMC, then the full grid
 	// n = 9..60 x numChunks = 2..6 (both tiers): every remainder class of the batching
@@ -163,7 +163,7 @@ func pipelineCases(t *testing.T, rnd *rand.Rand, gauges bool, yield func(vt.Case
 			seek = ts[rnd.Intn(len(ts))]
 		}
 		yield(vt.Case{"mode": "chunks", "base": bases[rnd.Intn(len(bases))], "nc1": 0, "nc2": nc2, "sizes": sizes,
-			"series": []any{map[string]any{"ts": ts, "vs": vs, "ks": ks}}, "seek": seek})
+			"series": []any{map[string]any{"kind": "float", "ts": ts, "vs": vs, "ks": ks}}, "seek": seek})
 	}
 	if p := os.Getenv("VERIF_CASES_DOWNSAMPLEBATCHINGMC"); p != "" {
 		cs, err := vt.ReadNDJSON(p)
@@ -177,6 +177,42 @@ func pipelineCases(t *testing.T, rnd *rand.Rand, gauges bool, yield func(vt.Case
 	for nc2 := 2; nc2 <= 6; nc2++ {
 		for n := 9; n <= 60; n++ {
 			chunkCase(n, nc2)
+		}
+	}
+	// phase 2: native histogram series over both levels (C38 only): every TLC shape of
+	// DownsampleHistMC through the two loops, random series through the loops and through real
+	// blocks (alone, or next to a float series)
+	if p := os.Getenv("VERIF_CASES_DOWNSAMPLEHISTMC"); hist && p != "" {
+		cs, err := vt.ReadNDJSON(p)
+		if err != nil {
+			t.Fatalf("reading histogram cases: %v", err)
+		}
+		for _, c := range cs {
+			s := map[string]any{"kind": "hist", "ts": concretise2(rnd, vt.Ints(c["ts"]), vt.Int(c["r"]), vt.Int(c["m"])), "ks": c["ks"],
+				"hv": scaleVecs(vt.List(c["hv"]), 1+rnd.Intn(20), 1+rnd.Intn(50)), "gauge": vt.Bool(c["gauge"]), "k": 1}
+			yield(vt.Case{"mode": "hloop", "base": bases[rnd.Intn(len(bases))], "nc1": vt.Int(c["nc1"]), "nc2": vt.Int(c["nc2"]),
+				"series": []any{s}, "seek": -1})
+		}
+	}
+	if hist {
+		for i := 0; i < vt.Pick(30, 200); i++ {
+			hs := randomHistSeries(rnd, 1+rnd.Intn(vt.Pick(900, 2000)), 1+rnd.Intn(4), rnd.Int63n(3*res1h), rnd.Intn(3) == 0, rnd.Intn(6))
+			if ks := hs["ks"].([]string); len(ks) > 0 && ks[0] != "H" {
+				continue
+			}
+			c := vt.Case{"base": bases[rnd.Intn(len(bases))], "nc1": 0, "nc2": 0, "seek": -1}
+			switch i % 3 {
+			case 0:
+				c["mode"], c["nc1"], c["nc2"] = "hloop", 1+rnd.Intn(8), 1+rnd.Intn(4)
+				c["series"] = []any{hs}
+			case 1:
+				c["mode"], c["series"] = "block", []any{hs}
+			default:
+				ts, vs, ks := randomSeriesIv(rnd, 1+rnd.Intn(600), rnd.Int63n(3*res1h), 0, rnd.Intn(10), rnd.Intn(5), gaugeGen(rnd))
+				ks[0], vs[0] = "F", 7
+				c["mode"], c["series"] = "block", []any{map[string]any{"kind": "float", "ts": ts, "vs": vs, "ks": ks}, hs}
+			}
+			yield(c)
 		}
 	}
 	// long dense series through real blocks: the 5 m block has a dozen or more chunks per series
@@ -193,7 +229,7 @@ func pipelineCases(t *testing.T, rnd *rand.Rand, gauges bool, yield func(vt.Case
 		ts, vs, ks := randomSeriesIv(rnd, size, rnd.Int63n(res1h), 60000, rnd.Intn(4), rnd.Intn(3), gen)
 		ks[0], vs[0] = "F", 7
 		yield(vt.Case{"mode": "block", "base": bases[rnd.Intn(len(bases))], "nc1": 0, "nc2": 0, "seek": -1,
-			"series": []any{map[string]any{"ts": ts, "vs": vs, "ks": ks}}})
+			"series": []any{map[string]any{"kind": "float", "ts": ts, "vs": vs, "ks": ks}}})
 	}
 	n := vt.Pick(60, 400)
 	for i := 0; i < n; i++ {
@@ -209,7 +245,7 @@ func pipelineCases(t *testing.T, rnd *rand.Rand, gauges bool, yield func(vt.Case
 			if len(ks) > 0 && ks[0] != "F" { // the first series of a block always has a number
 				ks[0], vs[0] = "F", 7
 			}
-			return map[string]any{"ts": ts, "vs": vs, "ks": ks}
+			return map[string]any{"kind": "float", "ts": ts, "vs": vs, "ks": ks}
 		}
 		// a series made of NaN and stale markers only: nothing to aggregate (the downsampled
 		// blocks do not carry it)
@@ -218,7 +254,7 @@ func pipelineCases(t *testing.T, rnd *rand.Rand, gauges bool, yield func(vt.Case
 			for k := range ks {
 				ks[k] = []string{"NaN", "STALE"}[rnd.Intn(2)]
 			}
-			return map[string]any{"ts": ts, "vs": vs, "ks": ks}
+			return map[string]any{"kind": "float", "ts": ts, "vs": vs, "ks": ks}
 		}
 		switch {
 		case i%3 == 0: // loop mode with random chunk counts
@@ -312,6 +348,28 @@ func runPipeline(c vt.Case) (ev vt.Event) {
 			}
 		}
 		l1, l2 = [][]chunks.Meta{m1}, [][]chunks.Meta{m2}
+	case "hloop":
+		hs := vt.Map(series[0])
+		ts, fhs, _ := histOf(base, hs)
+		m1 := downsample.VerifDownsampleRawHist(ts, fhs, res5m, vt.Int(c["nc1"]))
+		var m2 []chunks.Meta
+		if len(m1) > 0 {
+			acs := make([]*downsample.AggrChunk, len(m1))
+			for i := range m1 {
+				acs[i] = m1[i].Chunk.(*downsample.AggrChunk)
+			}
+			nc2 := vt.Int(c["nc2"])
+			if nc2 > len(acs) {
+				nc2 = len(acs)
+			}
+			var err error
+			m2, err = downsample.VerifDownsampleHistAggrLoop(acs, res1h, nc2)
+			if err != nil {
+				ev["got"] = map[string]any{"kind": "error", "msg": err.Error()}
+				return ev
+			}
+		}
+		l1, l2 = [][]chunks.Meta{m1}, [][]chunks.Meta{m2}
 	case "chunks":
 		ts, vs := rawOfSeries(base, series[0])
 		var m1 []chunks.Meta
@@ -361,7 +419,15 @@ func runPipeline(c vt.Case) (ev vt.Event) {
 		}
 		for lvl, metas := range [][]chunks.Meta{l1[i], l2[i]} {
 			name := []string{"c1", "c2"}[lvl]
-			recs, ok, aligned, msg := decodeChunks(metas, base)
+			isHist := vt.Str(vt.Map(series[i])["kind"]) == "hist"
+			var recs []any
+			var ok, aligned bool
+			var msg string
+			if isHist {
+				recs, ok, aligned, msg = decodeHistChunks(metas, base, vt.Int(vt.Map(series[i])["k"]))
+			} else {
+				recs, ok, aligned, msg = decodeChunks(metas, base)
+			}
 			rec[name] = recs
 			if !ok {
 				ev["ok"] = false
@@ -373,7 +439,7 @@ func runPipeline(c vt.Case) (ev vt.Event) {
 				ev["msg"] = msg
 			}
 			em, emerr := emptySeq(), ""
-			if len(metas) > 0 {
+			if len(metas) > 0 && !isHist { // the counter iterator passes histograms through unchanged
 				sc, err := storeChunks(metas)
 				if err != nil {
 					emerr = err.Error()
@@ -497,6 +563,14 @@ func blockPipeline(base int64, series []any) (run blockRun, cleanup func(), err 
 }
 
 func inputSeries(base int64, i int, s any) storage.Series {
+	if m := vt.Map(s); vt.Str(m["kind"]) == "hist" {
+		ts, fhs, _ := histOf(base, m)
+		out := make([]chunks.Sample, len(ts))
+		for j := range ts {
+			out[j] = hsample{ts[j], fhs[j]}
+		}
+		return storage.NewListSeries(seriesLabels(i), out)
+	}
 	ts, vs := rawOfSeries(base, s)
 	return storage.NewListSeries(seriesLabels(i), tsdbSamples(ts, vs))
 }
